@@ -87,6 +87,7 @@ _EXTRA = {"DefInt": (["a", "b"], ["I", "H"], 1), "DefStr": (["a", "s"], ["I", "v
                          ["H", "bits", "varlenH", "[G]", "G", "raw"], None),
           "HooksDefaultsBits": (["f0", "f1", "f2", "f3", "f4", "f5", "f6", "f7", "n", "label"], ["bits", "I", "varlenHutf8"], 8),
           "Child": (["a", "b", "c"], ["I", "H", "Q"], 1),
+          "OldBaseBits": (["a", "b", "f0", "f1", "f2", "f3", "f4", "f5", "f6", "f7", "c"], ["I", "H", "bits", "B"], None),
           "BitsTwice": (["a0", "a1", "a2", "a3", "a4", "a5", "a6", "a7", "mid", "b0", "b1", "b2", "b3", "b4", "b5", "b6", "b7", "n", "tail"],
                         ["bits", "H", "bits", "I", "varlenH"], None)}
 for _cname, (_names, _fmts, _nreq) in _EXTRA.items():
